@@ -110,6 +110,34 @@ func buildCtxFacts(w *World) (*ctxFacts, error) {
 			}
 		}
 	}
+	// a method that hands on what another lookup returned (findVariable → lookupVariable) is a lookup too
+	for changed := true; changed; {
+		changed = false
+		for _, fn := range w.Funcs("parser") {
+			recv := fn.Signature.Recv()
+			if recv == nil || !types.Identical(recv.Type(), cf.ctxType) || cf.lookups[fn] || cf.mutators[fn] {
+				continue
+			}
+			res := fn.Signature.Results()
+			if res.Len() != 2 || !isBool(res.At(1).Type()) {
+				continue
+			}
+			wraps := false
+			for _, b := range fn.Blocks {
+				for _, ins := range b.Instrs {
+					if c, ok := ins.(*ssa.Call); ok {
+						if callee := c.Call.StaticCallee(); callee != nil && cf.lookups[callee] && types.Identical(callee.Signature.Results().At(0).Type(), res.At(0).Type()) {
+							wraps = true
+						}
+					}
+				}
+			}
+			if wraps {
+				cf.lookups[fn] = true
+				changed = true
+			}
+		}
+	}
 	if cf.clone == nil {
 		return nil, fmt.Errorf("context clone method not found")
 	}
@@ -1461,6 +1489,11 @@ func c09Edge(w *World, r *Result, rule string) {
 						if callee := x.Call.StaticCallee(); callee != nil && strings.HasPrefix(callee.String(), "slices.Contains") {
 							hasContains = true
 						}
+					case *ssa.Lookup:
+						// membership in a set kept as a map (used[name])
+						if _, isMap := x.X.Type().Underlying().(*types.Map); isMap {
+							hasContains = true
+						}
 					case *ssa.UnOp:
 						if x.Op == token.NOT {
 							negated = true
@@ -2167,6 +2200,23 @@ func IdentRule(w *World, r *Result, rule string) {
 		if globalParam == nil {
 			continue
 		}
+		// a primitive that is only reached through other lookups is judged through them
+		callers, outside := 0, 0
+		for _, g := range w.Funcs("parser") {
+			for _, b := range g.Blocks {
+				for _, ins := range b.Instrs {
+					if c, ok := ins.(*ssa.Call); ok && c.Call.StaticCallee() == fn && g != fn {
+						callers++
+						if !cf.lookups[g] {
+							outside++
+						}
+					}
+				}
+			}
+		}
+		if callers > 0 && outside == 0 {
+			continue
+		}
 		// the key depends on the use site's scope flag; a second attempt with the global key must exist
 		attempts := 0
 		fallback := false
@@ -2192,7 +2242,11 @@ func IdentRule(w *World, r *Result, rule string) {
 							if !isBool(a.Type()) || a == ssa.Value(globalParam) {
 								continue
 							}
-							if _, isConst := a.(*ssa.Const); isConst {
+							if k, isConst := a.(*ssa.Const); isConst {
+								// a second attempt through another lookup of the same table, with the global key
+								if cf.lookups[callee] && k.Value != nil && constant.BoolVal(k.Value) {
+									fallback = true
+								}
 								continue
 							}
 							if boolMayBeTrue(a, 0, map[ssa.Value]bool{}) {
